@@ -484,7 +484,7 @@ def invoke : Nat → Nat → Nat → Nat → M Outcome
     | .waitDone w =>
       let ws ← getWait w
       let ev ← getEv e
-      if !ws.timedOut && (ws.event.isSome && ws.event == ev.parentEv) then
+      if !ws.flag && !ws.timedOut && (ws.event.isSome && ws.event == ev.parentEv) then
         modWait w fun x => { x with flag := true }
         registerTask ws.owner ⟨ws.taskEvent, ws.task, some ws.parentGen⟩
         if ws.timeout ≥ 0 then
